@@ -193,7 +193,8 @@ def r1(ctx, kind):
     out = {}
     for mode in ("linear", "opaque"):
         hook = LossHook(c, fn, mode)
-        Nrm = e1.Norm(c, dict(env))
+        env_m = arms.fn_level_env(c, fn, upto=L, hook=hook)      # named parts of the loss (`let total = ..sum();`) are reduced by this hook too
+        Nrm = e1.Norm(c, dict(env_m))
         Nrm.reduce_hook = hook
         try:
             val = Nrm.norm(L["init"])
